@@ -20,7 +20,7 @@ CONSTANTS
   KeyChains = {"ethereum", "minter"}
   KeyVariants = {"good", "wrongtx", "wrongkey", "stale", "wrongval"}
   DepAmts = {40, 400, 10000}
-  DepFees = {0, 2, 300}
+  DepFees = {0, 10, 70}
   WithKeysAndPrices = TRUE
   FeePaids = {0, 1, 3, 50}
   StakePowers = {1, 2, 3}
